@@ -684,6 +684,7 @@ func genC03(tier string, g *gen) {
 	}
 	g.parityCases(r, keys, map[bool]int{false: 1, true: 8}[thorough])
 	g.seqCases(r, keys, map[bool]int{false: 3, true: 18}[thorough], false)
+	g.viaTransportCases(r, keys)
 	// the real ReadMsg on valid packets of both kinds
 	for i := 0; i < 24; i++ {
 		k := keys[i%len(keys)]
@@ -931,6 +932,130 @@ func (g *gen) seqCases(r *vc.Rng, keys [][]byte, reps int, withForged bool) {
 			}
 			g.runSeq(name, steps, via)
 		}
+	}
+}
+
+// ---------------------------------------------------------------------------------------------
+// C03: the way a message really leaves the client - transport.WriteMsg on a connection
+
+type mutInformator struct {
+	mu              sync.Mutex
+	sid, salt       int64
+	seq             int32
+	key             []byte
+}
+
+func (i *mutInformator) GetSessionID() int64  { i.mu.Lock(); defer i.mu.Unlock(); return i.sid }
+func (i *mutInformator) GetSeqNo() int32      { i.mu.Lock(); defer i.mu.Unlock(); return i.seq }
+func (i *mutInformator) GetServerSalt() int64 { i.mu.Lock(); defer i.mu.Unlock(); return i.salt }
+func (i *mutInformator) GetAuthKey() []byte   { i.mu.Lock(); defer i.mu.Unlock(); return i.key }
+
+// viaTransportCases: messages of both kinds handed to transport.WriteMsg (what sendPacket does) and read back from the
+// peer's end of the connection: the frame's payload must be what Serialize gives for exactly these fields - the msg_id
+// the caller chose included, whatever it is (0, 4, -4, the extremes: the property quantifies over all of them) - and a
+// conformant server must recover them.  Same request kinds as the direct cases ("seal", "user"), so the model answers too.
+func (g *gen) viaTransportCases(r *vc.Rng, keys [][]byte) {
+	inf := &mutInformator{}
+	ln, err := net.Listen("tcp", "127.0.0.1:0")
+	fatal(err, "listen on loopback")
+	ch := make(chan net.Conn, 1)
+	go func() {
+		cn, err := ln.Accept()
+		if err != nil {
+			cn = nil
+		}
+		ch <- cn
+	}()
+	t, err := transport.NewTransport(inf, transport.TCPConnConfig{Ctx: context.Background(), Host: ln.Addr().String()}, mode.Intermediate)
+	fatal(err, "transport.NewTransport")
+	srv := <-ch
+	if srv == nil {
+		fatal(fmt.Errorf("no connection"), "accept")
+	}
+	ann := make([]byte, 4)
+	_, err = io.ReadFull(srv, ann)
+	fatal(err, "mode announcement")
+	ln.Close()
+	defer srv.Close()
+	readFrame := func() []byte {
+		srv.SetReadDeadline(time.Now().Add(5 * time.Second))
+		hdr := make([]byte, 4)
+		if _, err := io.ReadFull(srv, hdr); err != nil {
+			return nil
+		}
+		b := make([]byte, binary.LittleEndian.Uint32(hdr))
+		if _, err := io.ReadFull(srv, b); err != nil {
+			return nil
+		}
+		return b
+	}
+	ids := []uint64{0, 4, 0xfffffffffffffffc, 0x5f5e0ff000000004, 1 << 63, 0x7ffffffffffffffc, 8, r.U64() &^ 3, r.U64() &^ 3}
+	for i, id := range ids {
+		key := keys[i%len(keys)]
+		if len(key) < 136 {
+			continue
+		}
+		n := []int{0, 4, 17, 40, 100}[i%5]
+		f := randFields(r, n, false)
+		f.msgid = id
+		ack := i%2 == 0
+		inf.mu.Lock()
+		inf.sid, inf.salt, inf.seq, inf.key = int64(f.sid), int64(f.salt), int32(f.seq), key
+		inf.mu.Unlock()
+		// encrypted
+		msg := &messages.Encrypted{Msg: f.body, MsgID: int64(f.msgid)}
+		impl := "E"
+		p, _ := vc.Catch(func() { err = t.WriteMsg(msg, ack) })
+		switch {
+		case p:
+			impl = "P"
+		case err == nil:
+			if b := readFrame(); b != nil {
+				impl = "O:" + vc.Hex(b)
+			}
+		}
+		direct := "bad:not sealed"
+		if strings.HasPrefix(impl, "O:") {
+			want := f
+			if ack {
+				want.seq |= 1
+			}
+			got, pad := refOpen(true, key, vc.UnHex(impl[2:]))
+			switch {
+			case got == nil:
+				direct = "bad:conformant server refuses the packet"
+			case got.show() != want.show():
+				direct = "bad:conformant server recovers " + got.show() + " want " + want.show()
+			case pad > 15:
+				direct = "bad:padding " + fmt.Sprint(pad)
+			case int64(f.msgid) != msg.MsgID:
+				direct = "bad:WriteMsg changed the caller's message"
+			default:
+				direct = "ok"
+			}
+		}
+		cid := g.id("sealvia")
+		g.emit(cid, []string{"seal", cid, vc.Hex(key), vc.Hex(le64(f.salt)), vc.Hex(le64(f.sid)), vc.Hex(le64(f.msgid)), vc.Hex(le32(f.seq)), flag(ack), vc.Hex(f.body)},
+			impl, direct, fmt.Sprintf("seal through transport.WriteMsg, msg_id %#x", f.msgid))
+		// unencrypted
+		um := &messages.Unencrypted{Msg: f.body, MsgID: int64(f.msgid)}
+		impl = "E"
+		p, _ = vc.Catch(func() { err = t.WriteMsg(um, false) })
+		switch {
+		case p:
+			impl = "P"
+		case err == nil:
+			if b := readFrame(); b != nil {
+				impl = "O:" + vc.Hex(b)
+			}
+		}
+		direct = "ok"
+		if impl != "O:"+vc.Hex(refUnencrypted(f.msgid, f.body)) {
+			direct = "bad:unencrypted frame is not 8 zero bytes, the msg_id, the length and the body"
+		}
+		cid = g.id("uservia")
+		g.emit(cid, []string{"user", cid, vc.Hex(le64(f.msgid)), vc.Hex(f.body)}, impl, direct,
+			fmt.Sprintf("Unencrypted through transport.WriteMsg, msg_id %#x", f.msgid))
 	}
 }
 
